@@ -207,6 +207,15 @@ type State struct {
 	decided  map[string]bool
 	events   []string
 	shared   int
+	regions  map[string]*Term // known-finding regions registered on this path (copy on write)
+	obs      []*Term
+	asserts  []assertRec
+	reached  []string
+}
+
+type assertRec struct {
+	label string
+	cond  *Term
 }
 
 type timerEnt struct {
@@ -229,6 +238,10 @@ func (s *State) clone() *State {
 	}
 	n.timers = append([]timerEnt(nil), s.timers...)
 	n.settle = s.settle
+	n.regions = s.regions
+	n.obs = append([]*Term(nil), s.obs...)
+	n.asserts = append([]assertRec(nil), s.asserts...)
+	n.reached = append([]string(nil), s.reached...)
 	n.events = append([]string(nil), s.events...)
 	n.shared = s.shared
 	n.locks = make(map[string]*MutexModel, len(s.locks))
